@@ -17,7 +17,7 @@ namespace sim {
 
 Arena g_arena[A_COUNT];
 Global g;
-sigjmp_buf g_run_jmp; bool g_run_jmp_set;
+sigjmp_buf g_run_jmp; bool g_run_jmp_set; bool g_run_abandoned;
 uint8_t* g_guard_hit; uint32_t g_n_guards;
 const uintptr_t* g_pcs_beg; const uintptr_t* g_pcs_end;
 
@@ -78,6 +78,9 @@ void arenas_reset() {
         if (n) {
             memset(a.shadow, 0, n);
             memset(a.race, 0, n * 2);
+            // the data too: whatever a run reads beyond what it allocated (an unterminated string, a load the monitor records and lets
+            // continue) must not be what an earlier run of this worker left there - a fresh process sees zeros, so does every run
+            memset((void*)a.base, 0, n);
         }
         a.used = 0; a.hwm = 0;
     }
@@ -93,7 +96,11 @@ bool in_arena(const void* p, ArenaId* which) {
 void* arena_alloc(ArenaId id, size_t bytes, size_t align, uint8_t pm) {
     Arena& a = g_arena[id];
     size_t off = (a.used + align - 1) & ~(align - 1);
-    if (off + bytes + 64 > a.size) { fprintf(stderr, "HARNESS-ERROR: arena %s exhausted\n", kArenaName[id]); _exit(2); }
+    if (off + bytes + 64 > a.size) {
+        // a resource limit of the simulator, not a verdict: the run is abandoned (counted), the worker goes on with the next one
+        if (g_run_jmp_set) { g_run_abandoned = true; g.abort_run = true; g_run_jmp_set = false; siglongjmp(g_run_jmp, 2); }
+        fprintf(stderr, "HARNESS-ERROR: arena %s exhausted\n", kArenaName[id]); _exit(2);
+    }
     a.used = off + bytes;
     if (a.used > a.hwm) a.hwm = a.used;
     if (bytes) memset(a.shadow + off, pm, bytes);
